@@ -1,0 +1,8 @@
+//go:build !verif
+
+// Package verifhook is a verification-only observation/perturbation point.
+// It is compiled to a no-op unless the build tag `verif` is set.
+package verifhook
+
+// Point does nothing in regular builds.
+func Point(string, int) {}
